@@ -132,6 +132,8 @@ def config_get(ctx: click.Context, key: str) -> None:
     """
     cfg = ctx.obj["config"]
 
+    # Top-level keys are normalised (hyphens to underscores) when a config file is loaded
+    key = key if key in cfg else key.replace("-", "_")
     if key not in cfg:
         click.echo(f"Configuration key not found: {key}", err=True)
         sys.exit(1)
